@@ -136,3 +136,8 @@ PROPS["C15"] = {
     "trusted": [],
     "assumptions": ["in-range CAN setting: identifier < 128, frequency < 2048, mask = identifier (DESIGN section 10.4)"],
 }
+
+CLIENT_TRUSTED = STREAM_TRUSTED + ["scripted port: reads through the chunking reader, writes succeed or fail as planned",
+                                   "Client.MeasurementData values are compared on the Go side with a fresh decoding of RawPacket() by the same Go type (the codecs themselves are C04)"]
+CLIENT_KIND = {"type": "case_client", "chk": "chk_client", "sig": "sig_client", "scope": "N_scope"}
+CLIENT_RULE = "a real Client over a scripted port executes an operation list (Receive, ScanMeasurementData, RawMessage, MessageIdentifier, DataType, RawPacket, MeasurementData, commands); every return value is compared with the Gallina client model (correspondence) and with the abstract client over the reference segmentation (oracle). non-trivial = at least one reported packet, rejected frame or command, error-with-data, or non-EOF terminal; distinct = distinct case terms. "
